@@ -235,6 +235,7 @@ def work(item):
     agg['cross_n'] = _W['cross'].get('n', 0)
     agg['cross_s'] = _W['cross'].get('s', 0.0)
     agg['cross_problems'] = _W['cross'].get('problems', [])
+    agg['cross_timeouts'] = _W['cross'].get('timeouts', 0)
     return agg
 
 
@@ -251,7 +252,7 @@ def explore(progs, queries, workers=None, seed=0, budget=150, replay_cap=40, tim
     models.unicode_tables()
     results = [{'name': q.name, 'bound': q.bound, 'paths': 0, 'outcomes': {}, 'violations': [], 'replays': [],
                 'unsupported': [], 'checks': 0, 'fns': set(), 'models': set(), 'steps': 0, 'decisions': 0,
-                'tags': {}, 'errors': [], 'solver_checks': 0, 'solver_s': 0.0, 'cpu_s': 0.0, 'complete': True, 'cross_n': 0, 'cross_s': 0.0, 'cross_problems': []}
+                'tags': {}, 'errors': [], 'solver_checks': 0, 'solver_s': 0.0, 'cpu_s': 0.0, 'complete': True, 'cross_n': 0, 'cross_s': 0.0, 'cross_problems': [], 'cross_timeouts': 0}
                for q in queries]
     t0 = time.time()
     ctxm = mp.get_context('fork')
@@ -279,6 +280,7 @@ def explore(progs, queries, workers=None, seed=0, budget=150, replay_cap=40, tim
         r['errors'].extend(agg['errors'])
         r['cross_n'] += agg['cross_n']
         r['cross_s'] += agg['cross_s']
+        r['cross_timeouts'] += agg.get('cross_timeouts', 0)
         r['cross_problems'].extend(agg['cross_problems'][:3])
         for p in agg['leftover']:
             todo.append((agg['qi'], p, budget, seed, replay_cap))
